@@ -35,6 +35,9 @@ class Line:
     def width(self):
         return vis_width(self.text())
 
+    def width_max(self):
+        return max(vis_width(x) for x in self.text().split("\n"))
+
     def copy(self):
         l = Line(self.kind, list(self.segs), self.depth, self.func)
         l.meta = dict(self.meta)
